@@ -74,7 +74,7 @@ def run(ctx, pid, level, gen_needed, perrun, trusted, correspondence=None, table
     level = manifest_level(pid, level)
     if level == 'other' and not explanation:
         explanation = 'mechanism theorems (see coverage.theorems) are checked on regenerated definitions; the remaining clauses are validated by the oracle sweep only'
-    ok = C.translate(ctx)
+    ok = C.translate(ctx, needed=gen_needed)
     ok = ok and C.compile_gen(ctx, needed=gen_needed)
     gen_ok = ok
     ok = ok and C.compile_perrun(ctx, perrun)
